@@ -423,50 +423,80 @@ func vh13Client(o *vhOut, id *int, req, announce uint32, op string, n int, avail
 	done := make(chan struct{})
 	go func() { fake.serve(sc); close(done) }()
 	rec := map[string]interface{}{"kind": "client", "req": req, "announce": announce, "op": op, "n": n, "avail": avail, "short": short}
-	c, err := NewClient(cc, WithMessageSize(req))
-	if err != nil {
-		rec["result"] = "refused"
-		if _, ok := err.(*ErrMessageTooLarge); ok {
-			rec["result"] = "toosmall"
-		}
-		cc.Close()
-		<-done
-		*id++
-		rec["id"] = *id
-		rec["frames"] = fake.frames
-		o.Emit(rec)
-		return
+	type outT struct {
+		result  string
+		msize   uint32
+		payload uint32
+		ret     int
+		operr   string
 	}
-	rec["result"] = "ok"
-	rec["msize"] = c.messageSize
-	rec["payload"] = c.payloadSize
-	root, err := c.Attach("")
-	ret, opErr := 0, ""
-	if err == nil {
-		switch op {
-		case "write":
-			ret, err = root.WriteAt(make([]byte, n), 0)
-		case "read":
-			ret, err = root.ReadAt(make([]byte, n), 0)
-		case "readdir":
-			var d Dirents
-			d, err = root.Readdir(0, uint32(n))
-			ret = len(d)
-		case "getxattr":
-			var b []byte
-			b, err = root.GetXattr("user.x")
-			ret = len(b)
+	ch := make(chan outT, 1)
+	// the whole client side runs under a watchdog: a client that stops answering (e.g. after it
+	// refused an over-long reply) must not stall the harness; the frames it sent are still recorded
+	go func() {
+		var out outT
+		c, err := NewClient(cc, WithMessageSize(req))
+		if err != nil {
+			out.result = "refused"
+			if _, ok := err.(*ErrMessageTooLarge); ok {
+				out.result = "toosmall"
+			}
+			ch <- out
+			return
 		}
-	}
-	if err != nil && err != io.EOF {
-		opErr = err.Error()
+		out.result = "ok"
+		out.msize = c.messageSize
+		out.payload = c.payloadSize
+		root, err := c.Attach("")
+		if err == nil {
+			switch op {
+			case "write":
+				out.ret, err = root.WriteAt(make([]byte, n), 0)
+			case "read":
+				out.ret, err = root.ReadAt(make([]byte, n), 0)
+			case "readdir":
+				var d Dirents
+				d, err = root.Readdir(0, uint32(n))
+				out.ret = len(d)
+			case "getxattr":
+				var b []byte
+				b, err = root.GetXattr("user.x")
+				out.ret = len(b)
+			}
+		}
+		if err != nil && err != io.EOF {
+			out.operr = err.Error()
+		}
+		ch <- out
+	}()
+	var out outT
+	hang := false
+	select {
+	case out = <-ch:
+	case <-time.After(8 * time.Second):
+		hang = true
+		out.result = "ok"
 	}
 	cc.Close()
+	sc.Close()
 	<-done
+	if hang {
+		select {
+		case out = <-ch:
+		case <-time.After(2 * time.Second):
+		}
+		if out.result == "" {
+			out.result = "ok"
+		}
+	}
 	*id++
 	rec["id"] = *id
-	rec["ret"] = ret
-	rec["operr"] = opErr
+	rec["result"] = out.result
+	rec["hang"] = hang
+	rec["msize"] = out.msize
+	rec["payload"] = out.payload
+	rec["ret"] = out.ret
+	rec["operr"] = out.operr
 	var later []vh13Frame
 	for _, fr := range fake.frames {
 		if t := msgType(fr.Type); t == msgTwrite || t == msgTread || t == msgTreaddir {
@@ -494,6 +524,9 @@ func TestVerifC13(t *testing.T) {
 
 	id := 100000
 	reqs := []uint32{154, 1024, 8192, 65536}
+	if !thorough {
+		reqs = []uint32{154, 1024, 65536}
+	}
 	for _, req := range reqs {
 		oldPay := roundDown(req-153, 512)
 		anns := []uint32{req, req - 1, 0, 153, 154, 155, 665, 666, 1200, req + 100, req / 2, 1<<32 - 1,
@@ -526,10 +559,18 @@ func TestVerifC13(t *testing.T) {
 			}
 			vh13Client(o, &id, req, ann, "write", 2*pay+7, 0, uint32(1+r.Intn(pay)))
 			vh13Client(o, &id, req, ann, "read", 3*pay, pay+pay/2, 0)
-			for _, cnt := range []uint32{0, 31, 32, m - 12, m - 11, m - 10, m, m + 1, 1 << 20, 1<<32 - 1} {
+			rdCounts := []uint32{0, 31, 32, m - 12, m - 11, m - 10, m, m + 1, 1 << 20, 1<<32 - 1}
+			if !thorough {
+				rdCounts = []uint32{32, m - 12, m - 11, m - 10, m + 1, 1<<32 - 1}
+			}
+			for _, cnt := range rdCounts {
 				vh13Client(o, &id, req, ann, "readdir", int(cnt), 0, 0)
 			}
-			for _, sz := range []int{0, 1, pay, pay + 1, 2*pay + 1} {
+			xs := []int{0, 1, pay, pay + 1, 2*pay + 1}
+			if !thorough {
+				xs = []int{0, pay + 1, 2*pay + 1}
+			}
+			for _, sz := range xs {
 				vh13Client(o, &id, req, ann, "getxattr", 0, sz, 0)
 			}
 		}
